@@ -90,7 +90,7 @@ Proof.
   assert (Ur : forall z, cnt z (fids r) <= 1) by (intro z; specialize (Uk z); cnt_norm; lia).
   destruct (find_node (bid c) y) as [n|] eqn:Fy.
   - (* the identifier occurs in y: then c is in y *)
-    destruct Hx as [<-|Hx]; [rewrite (IHy c Uy Hc) in Fy; exact Fy|].
+    destruct Hx as [<-|Hx]; [rewrite (IHy c Uy Hc) in Fy; symmetry; exact Fy|].
     exfalso. pose proof (find_node_cnt _ _ _ Fy) as A.
     assert (B : 1 <= cnt (bid c) (fids r)).
     { pose proof (bsub_cnt _ _ Hc) as B. apply in_split in Hx. destruct Hx as [l1 [l2 ->]]. cnt_norm. lia. }
@@ -123,12 +123,12 @@ Qed.
 
 (* the node found after an update that keeps the identifier of the node *)
 Lemma upd_find id f t : forall t' n,
-  upd id f t = Some t' -> find_node id t = Some n -> bid (f n) = id -> find_node id t' = Some (f n).
+  upd id f t = Some t' -> find_node id t = Some n -> Nat.eqb (bid (f n)) id = true -> find_node id t' = Some (f n).
 Proof.
   induction t as [i ch IH] using bnode_ind2. intros t' n U F B. cbn [upd] in U. cbn [find_node] in F.
   destruct (Nat.eqb (bi_id i) id) eqn:E.
-  { inversion U; subst. inversion F; subst. destruct (f (BNode i ch)) as [j k] eqn:Ef. cbn [find_node].
-    unfold bid in B. cbn [binf] in B. rewrite B, Nat.eqb_refl. reflexivity. }
+  { injection U as <-. injection F as <-. destruct (f (BNode i ch)) as [j k] eqn:Ef. cbn [find_node].
+    unfold bid in B. cbn [binf] in B. rewrite B. reflexivity. }
   match type of U with match ?g with _ => _ end = _ => destruct g as [ch'|] eqn:G; [|discriminate] end.
   inversion U; subst. clear U. cbn [find_node]. rewrite E.
   revert ch' G F. induction ch as [|c r IHr]; intros ch' G F; [discriminate|].
@@ -314,7 +314,7 @@ Proof.
   destruct (split_kid id ch) as [[[pre c] post]|] eqn:S.
   { inversion U; subst. pose proof (split_kid_eq _ _ _ _ _ S) as Eq. rewrite Eq in V |- *. apply Hg; [|exact V].
     apply HQ; [|eapply split_kid_bid; exact S]. eapply bsub_kid; [|apply bsub_self].
-    apply in_or_app. right. left. reflexivity. }
+    rewrite Eq. apply in_or_app. right. left. reflexivity. }
   clear S.
   match type of U with match ?gg with _ => _ end = _ => destruct gg as [ch'|] eqn:G; [|discriminate] end.
   inversion U; subst. clear U.
